@@ -24,7 +24,7 @@ SPECS = {
     "quick": [spec(k, [], bound=1, faults=F, ly=1, oe=oe) for k in _q + ["watch"] for oe in ("p", "s")]
     + [spec(k, PAUSE1, bound=2, faults=("raise",), ly=1, oe=oe) for k in ("bare", "count2") for oe in ("p", "s")]
     + [spec(k, PAUSE1, bound=2, faults=("fail_late",), ly=1, oe=oe) for k in ("bare", "twomotors") for oe in ("p", "s")]  # the status fails while the engine is paused
-    + [spec(k, PAUSE1, bound=2, faults=("fail_if_stopped",), ly=1, oe=oe) for k in ("twomotors", "scan2") for oe in ("p", "s")]  # a move whose status fails because the pause stops the motor
+    + [spec(k, PAUSE1, bound=2, faults=("fail_if_stopped",), ly=1, oe=oe) for k in ("twomotors", "scan2", "longmove") for oe in ("p", "s")]  # a move whose status fails because the pause stops the motor
     + [spec("latefail", [], bound=1, faults=F, a=a) for a in (0, 1)],  # a status that fails after its call has ended
     "thorough": [spec(k, [], bound=1, faults=F, ly=1, oe=oe, a=a) for k in _q + ["flyonly", "relscan2", "listscan", "tworuns"] for oe in ("p", "s") for a in (0, 1)]
     + [spec(k, [], bound=2, faults=F, ly=1, oe="s") for k in ("scan2", "bare", "count2")]
@@ -136,7 +136,8 @@ def oracle(scn, obs, ref, schedule):
     if scn.on_error == "propagate":
         if excs_logged and err is not None and any(v is err for _k, _m, v in excs_logged):
             if c0["exc"] is not err and not _handled_by_plan(scn):
-                out.append(("unhandled-error-not-raised", f"{c0['name']}() ended with {type(c0['exc']).__name__} instead of the undelivered/unhandled {type(err).__name__}"))
+                diag = f":{type(c0['exc']).__name__}-after-rewind" if paused and type(c0["exc"]).__name__ == "IllegalMessageSequence" else ""
+                out.append(("unhandled-error-not-raised" + diag, f"{c0['name']}() ended with {type(c0['exc']).__name__} instead of the undelivered/unhandled {type(err).__name__}"))
     else:
         # handle-and-continue: the rest of the plan runs as in the fault-free execution
         a = [(mm.command, getattr(mm.obj, "name", None)) for _k, mm, _kd, _v in ylog]
